@@ -25,17 +25,15 @@ cp $SRC/$DEMO $VT/$PKG/zz_seed_demo_test.go
 go test -vet=off -count=1 -run "$RUN" ./$PKG 2>&1 | tail -4; SEEDED=${PIPESTATUS[0]}
 echo "RESULT clean_demo_exit=$CLEAN build_exit=$BUILD baseline_exit=$BASE seeded_demo_exit=$SEEDED"
 cd /verif
-git -C /repo worktree remove --force $VT
-if [ "$CLEAN" != 0 ] || [ "$BUILD" != 0 ] || [ "$BASE" != 0 ] || [ "$SEEDED" = 0 ]; then echo "NOT CONFIRMED"; exit 7; fi
-echo "== run checks against the seeded change in /repo"
-git -C /repo status --short | grep . && { echo "/repo not clean"; exit 6; }
-git -C /repo apply $SRC/patch.diff
+if [ "$CLEAN" != 0 ] || [ "$BUILD" != 0 ] || [ "$BASE" != 0 ] || [ "$SEEDED" = 0 ]; then echo "NOT CONFIRMED"; git -C /repo worktree remove --force $VT; exit 7; fi
+echo "== run checks against the seeded change (scratch worktree, /repo untouched)"
+rm -f $VT/$PKG/zz_seed_demo_test.go
 for P in ${PROPS//,/ }; do
-  ./check $P $TIER > /tmp/seeded/$NAME.check.$P.log 2>&1; RC=$?
+  VERIF_REPO=$VT ./check $P $TIER > /tmp/seeded/$NAME.check.$P.log 2>&1; RC=$?
   echo "check $P $TIER -> exit $RC: $(grep -m1 -E 'violated|WATCHDOG|DATA RACE|fails:' /tmp/seeded/$NAME.check.$P.log | cut -c1-260)"
 done
-git -C /repo checkout -- . ; git -C /repo status --short
-git -C /verif checkout -- evidence   # evidence files describe runs on the unchanged tree only
+git -C /repo worktree remove --force $VT
+rm -rf /verif/work/alt-*
 # keep the confirmed seed
 D=/verif/seeded/$NAME; mkdir -p $D
 cp $SRC/patch.diff $D/; cp $SRC/$DEMO $D/; [ -f $SRC/NOTES.md ] && cp $SRC/NOTES.md $D/
